@@ -1,6 +1,7 @@
 import BadgerModel.Table
 import BadgerProofs.Lemmas.TableSeek
 import BadgerProofs.Lemmas.Concat
+import BadgerProofs.Lemmas.ConcatSeek
 /-!
 # C18 — SSTables return exactly the entries they were built from
 
@@ -146,44 +147,27 @@ theorem C18_entries {env : Env} {K : Nat} {o : Opts} {es : List Entry} {tf : Tab
 
 /-! ## Seek -/
 
-theorem Tbl.find?_index {α : Type} (P : α → Bool) : ∀ (es : List α) (p : Nat),
-    (∀ k e, k < p → es[k]? = some e → P e = false) → (∀ e, es[p]? = some e → P e = true) →
-    es.find? P = es[p]? := by
+/-- `Sorted` (every earlier key `<` every later key) is the same as the usual adjacent
+    formulation "each key is `<` its successor", because `compareKeys` is transitive. -/
+theorem C18_sorted_of_adjacent : ∀ (es : List Entry),
+    (∀ (i : Nat) a b, es[i]? = some a → es[i + 1]? = some b → compareKeys a.key b.key = .lt) →
+    Sorted es := by
   intro es
   induction es with
-  | nil => intro p _ _; simp
+  | nil => intro _; exact List.Pairwise.nil
   | cons x xs ih =>
-    intro p hlo hhi
-    cases p with
-    | zero =>
-      have := hhi x (by simp)
-      simp [List.find?_cons, this]
-    | succ p =>
-      have hx := hlo 0 x (by omega) (by simp)
-      simp only [List.find?_cons, hx, List.getElem?_cons_succ]
-      exact ih p (fun k e hk he => hlo (k + 1) e (by omega) (by simpa using he))
-        (fun e he => hhi e (by simpa using he))
-
-theorem Tbl.find?_reverse_index {α : Type} (P : α → Bool) (es : List α) (q : Nat) (e : α)
-    (he : es[q]? = some e) (hP : P e = true)
-    (hhi : ∀ k e', q < k → es[k]? = some e' → P e' = false) :
-    es.reverse.find? P = some e := by
-  have hq := lt_of_getElem?_some he
-  have hsplit : es = es.take q ++ e :: es.drop (q + 1) := by
-    have h1 : es.drop q = e :: es.drop (q + 1) := by
-      rw [List.drop_eq_getElem_cons hq]
-      rw [List.getElem?_eq_getElem hq] at he
-      rw [Option.some.inj he]
-    rw [← h1, List.take_append_drop]
-  rw [List.find?_eq_some_iff_append]
-  refine ⟨hP, (es.drop (q + 1)).reverse, (es.take q).reverse, ?_, ?_⟩
-  · conv => lhs; rw [hsplit]
-    simp
-  · intro a ha
-    rw [List.mem_reverse] at ha
-    obtain ⟨k, hk⟩ := List.getElem?_of_mem ha
-    rw [List.getElem?_drop] at hk
-    simp [hhi (q + 1 + k) a (by omega) hk]
+    intro h
+    have hxs : Sorted xs := ih (fun i a b ha hb => h (i + 1) a b (by simpa using ha) (by simpa using hb))
+    refine List.Pairwise.cons ?_ hxs
+    intro b hb
+    cases xs with
+    | nil => simp at hb
+    | cons y ys =>
+      have hxy : compareKeys x.key y.key = .lt := h 0 x y (by simp) (by simp)
+      rcases List.mem_cons.mp hb with rfl | hb'
+      · exact hxy
+      · have hyb : compareKeys y.key b.key = .lt := (List.pairwise_cons.mp hxs).1 b hb'
+        exact compareKeys_lt_trans _ _ _ hxy hyb
 
 /-- **C18_seek.** On the opened built table of a strictly increasing entry list, `seek(key)`
     from ANY iterator state and for ANY key (before the first, after the last, between blocks,
@@ -415,7 +399,7 @@ theorem Tbl.exists_groups {env : Env} {K : Nat} : ∀ (tabs : List TabSpec),
     ∃ Gs : List (List (List Entry)), Gs.length = tabs.length ∧ flatAll Gs = (tabs.map (·.2.1)).flatten ∧
       ∀ (i : Nat) x G, tabs[i]? = some x → Gs[i]? = some G →
         TableOK env ⟨x.1, x.2.2⟩ G ∧ (∀ g ∈ G, g ≠ []) ∧ G ≠ [] ∧
-        (∀ g ∈ G, ∀ e ∈ g, e.vs.expiresAt < 2 ^ 64) := by
+        (∀ g ∈ G, ∀ e ∈ g, e.vs.expiresAt < 2 ^ 64) ∧ G.flatten = x.2.1 := by
   intro tabs
   induction tabs with
   | nil => intro _; exact ⟨[], rfl, rfl, by intro i x G h; simp at h⟩
@@ -432,7 +416,7 @@ theorem Tbl.exists_groups {env : Env} {K : Nat} : ∀ (tabs : List TabSpec),
       | zero =>
         simp only [List.getElem?_cons_zero, Option.some.injEq] at hy hG'
         subst hy; subst hG'
-        refine ⟨ok, hne, hGne, ?_⟩
+        refine ⟨ok, hne, hGne, ?_, hG⟩
         intro g hg e he
         exact hx.exp e (by rw [← hG]; exact List.mem_flatten.mpr ⟨g, hg, he⟩)
       | succ i =>
@@ -460,11 +444,56 @@ theorem C18_concat {env : Env} {K : Nat} (tabs : List TabSpec)
       rw [hcore] at h1
       simp only [List.getElem?_map, hx, Option.map_some, Option.some.injEq] at h1
       exact h1.symm
-    obtain ⟨ok, hne, hGne, hexp⟩ := hall i x G hx hG
+    obtain ⟨ok, hne, hGne, hexp, _⟩ := hall i x G hx hG
     exact ⟨by rw [hc]; exact ok, hne, hGne, hexp⟩
   have := concatEntries_ok hts fuel (by rw [hflat]; exact hfuel)
   rw [hflat] at this
   exact this
+
+/-- **C18_concat_seek.** `ConcatIterator.Seek` over opened built tables whose concatenated
+    entries are strictly increasing (disjoint, increasing key ranges): from any iterator state,
+    a forward iterator lands on the first entry `≥ key` of the whole concatenation, a reversed
+    one on the last entry `≤ key`; invalid iff there is none. (`sort.Search` on `Biggest()` /
+    `Smallest()`, lazy `setIdx`, then the table-level `Seek`.) -/
+theorem C18_concat_seek {env : Env} {K : Nat} (tabs : List TabSpec)
+    (hb : ∀ x ∈ tabs, Built env K x.1 x.2.1 x.2.2) (ts : List Table) (hlen : ts.length = tabs.length)
+    (hopen : ∀ (i : Nat) x t, tabs[i]? = some x → ts[i]? = some t →
+      ∃ inMem, openTable env x.1 x.2.2 inMem = .ok t)
+    (hs : Sorted (tabs.map (·.2.1)).flatten) (h8 : ∀ e ∈ (tabs.map (·.2.1)).flatten, 8 ≤ e.key.length)
+    (s : CIter) (hinv : CInv ts s) (key : Bytes) (hkey : 8 ≤ key.length) :
+    ∃ s', s.seek env ts key = some s' ∧ CInv ts s' ∧
+      s'.entry? = (if s.reversed
+        then (tabs.map (·.2.1)).flatten.reverse.find? (fun e => compareKeys e.key key != .gt)
+        else (tabs.map (·.2.1)).flatten.find? (fun e => compareKeys e.key key != .lt)) := by
+  obtain ⟨Gs, hlenG, hflat, hall⟩ := exists_groups tabs hb
+  have hts : TabsOK2 env ts Gs := by
+    refine ⟨by rw [hlen, hlenG], ?_⟩
+    intro i t G ht hG
+    obtain ⟨x, hx⟩ := getElem?_some_of_lt tabs i (by rw [← hlen]; exact lt_of_getElem?_some ht)
+    obtain ⟨ok, hne, hGne, hexp, hGf⟩ := hall i x G hx hG
+    obtain ⟨im, him⟩ := hopen i x t hx ht
+    have hbx := hb x (List.mem_of_getElem? hx)
+    obtain ⟨t', ht', hcore, hsm, hbg, _⟩ := C18_meta hbx im
+    rw [him] at ht'
+    cases ht'
+    have hpos : 0 < x.2.1.length := List.length_pos_iff.mpr hbx.ne
+    obtain ⟨e0, he0⟩ := getElem?_some_of_lt x.2.1 0 hpos
+    obtain ⟨el, hel⟩ := getElem?_some_of_lt x.2.1 (x.2.1.length - 1) (by omega)
+    refine ⟨⟨by rw [hcore]; exact ok, hne, hGne, hexp⟩, ⟨el, by rw [hGf]; exact hel, hbg el hel⟩,
+      ⟨e0, by rw [hGf]; exact he0, hsm e0 he0⟩⟩
+  rw [← hflat] at hs h8 ⊢
+  cases hr : s.reversed with
+  | false =>
+    obtain ⟨s', h1, h2, _, h4⟩ := cseek_fwd hts hs h8 hinv hr key hkey
+    exact ⟨s', h1, h2, by simpa using h4⟩
+  | true =>
+    obtain ⟨s', h1, h2, _, h4⟩ := cseek_rev hts hs h8 hinv hr key hkey
+    exact ⟨s', h1, h2, by simpa using h4⟩
+
+/-- A fresh `NewConcatIterator` satisfies the invariant `CInv` required by `C18_concat_seek`
+    (and `Seek` re-establishes it, so any sequence of seeks is covered). -/
+theorem C18_concat_new_inv (ts : List Table) (rev : Bool) : CInv ts (newConcat ts rev) :=
+  cinv_new ts rev
 
 /-! ## The builder asserts -/
 
